@@ -33,6 +33,9 @@ pub enum Target {
     /// k-th reference the caller was handed so far (modulo the number of handles)
     Handle(usize),
     Base(u64),
+    /// a number below /Size that the base file does not define (free or never mentioned): the
+    /// library may refuse the update with an error or accept it, then it is a write like any other
+    Missing(u64),
 }
 #[derive(Clone, Debug, PartialEq)]
 pub enum Op9 {
@@ -71,11 +74,15 @@ fn target_json(t: &Target) -> J {
     match t {
         Target::Handle(k) => json!({"handle": k}),
         Target::Base(id) => json!({"base": id}),
+        Target::Missing(id) => json!({"missing": id}),
     }
 }
 fn target_from(j: &J) -> Option<Target> {
     if let Some(k) = j.get("handle") {
         return Some(Target::Handle(k.as_u64()? as usize));
+    }
+    if let Some(k) = j.get("missing") {
+        return Some(Target::Missing(k.as_u64()?));
     }
     Some(Target::Base(j.get("base")?.as_u64()?))
 }
@@ -84,6 +91,7 @@ impl Op9 {
         match self {
             Op9::Create(_) => "create",
             Op9::Update(Target::Base(_), _) => "update(base)",
+            Op9::Update(Target::Missing(_), _) => "update(missing)",
             Op9::Update(Target::Handle(_), _) => "update(handle)",
             Op9::Promise => "promise",
             Op9::Fulfil(..) => "fulfil",
@@ -158,6 +166,7 @@ pub struct Outcome {
     pub reads: u64,
     pub writes: u64,
     pub second_saves: u64,
+    pub refused_updates: u64,
 }
 
 fn to_primitive(file: &SimFile, w: &WV) -> Result<Primitive, String> {
@@ -317,7 +326,7 @@ impl<'a> Exec<'a> {
                     Some(self.handles[k % self.handles.len()])
                 }
             }
-            Target::Base(id) => Some(PlainRef { id: *id, gen: 0 }),
+            Target::Base(id) | Target::Missing(id) => Some(PlainRef { id: *id, gen: 0 }),
         }
     }
 
@@ -543,6 +552,25 @@ impl<'a> Exec<'a> {
         self.trace.str(op.kind());
         match op {
             Op9::Create(w) => self.write(None, w, None),
+            Op9::Update(Target::Missing(n), w) => {
+                // still missing? (an earlier accepted update may have defined it)
+                if self.expect.contains_key(n) || matches!(w, WV::InFile(_) | WV::Page { .. }) {
+                    return Ok(());
+                }
+                let prim = match to_primitive(&self.file, w) {
+                    Ok(p) => p,
+                    Err(_) => return Ok(()),
+                };
+                self.out.writes += 1;
+                let r = PlainRef { id: *n, gen: 0 };
+                match self.file.update(r, prim) {
+                    Ok(h) => self.record_write(Ok((Some(r), h.get_ref().get_inner())), w),
+                    Err(_) => {
+                        self.out.refused_updates += 1;
+                        Ok(())
+                    }
+                }
+            }
             Op9::Update(t, w) => match self.target_ref(t) {
                 Some(r) => {
                     // a reference that an earlier promise handed out and that is still unfulfilled is
@@ -580,7 +608,7 @@ impl<'a> Exec<'a> {
 }
 
 pub fn run_case(case: &Case, scratch: &str) -> Outcome {
-    let mut out = Outcome { violation: None, trace: 0, saves_ok: 0, saves_failed_expected: 0, env_faults: 0, reloads: 0, reads: 0, writes: 0, second_saves: 0 };
+    let mut out = Outcome { violation: None, trace: 0, saves_ok: 0, saves_failed_expected: 0, env_faults: 0, reloads: 0, reads: 0, writes: 0, second_saves: 0, refused_updates: 0 };
     clear_last_panic();
     let file = match open_base(&case.base, case.cached) {
         Ok(f) => f,
@@ -614,7 +642,7 @@ pub fn run_case(case: &Case, scratch: &str) -> Outcome {
         }
         base_pages = (fresh.num_pages(), fresh.num_pages() > 0 && fresh.get_page(0).is_ok());
     }
-    std::mem::swap(&mut out, &mut Outcome { violation: None, trace: 0, saves_ok: 0, saves_failed_expected: 0, env_faults: 0, reloads: 0, reads: 0, writes: 0, second_saves: 0 });
+    std::mem::swap(&mut out, &mut Outcome { violation: None, trace: 0, saves_ok: 0, saves_failed_expected: 0, env_faults: 0, reloads: 0, reads: 0, writes: 0, second_saves: 0, refused_updates: 0 });
     let mut ex = Exec {
         case,
         scratch: scratch.to_string(),
@@ -871,11 +899,13 @@ impl C09 {
             .map(|x| x.0)
             .filter(|id| !base.inv.trailer_refs.contains(id) && !base.inv.structural.contains(id))
             .collect();
+        let missing: Vec<u64> = base.inv.objects.iter().filter(|(_, k)| *k == ObjKind::Unreadable).map(|x| x.0).collect();
         let len = 1 + rng.usize(if ctx.tier == Tier::Quick { 12 } else { 20 });
         let mut ops_v = vec![];
         for _ in 0..len {
             let op = match rng.below(20) {
                 0..=3 => Op9::Create(self.gen_wv(&mut rng, &base, faults)),
+                4 if !missing.is_empty() && rng.chance(1, 4) => Op9::Update(Target::Missing(*rng.pick(&missing)), self.gen_wv(&mut rng, &base, false)),
                 4..=6 if !eligible.is_empty() => Op9::Update(Target::Base(*rng.pick(&eligible)), self.gen_wv(&mut rng, &base, faults)),
                 4..=8 => Op9::Update(Target::Handle(rng.usize(8)), self.gen_wv(&mut rng, &base, faults)),
                 9 => Op9::Promise,
@@ -1026,6 +1056,7 @@ impl Check for C09 {
         rep.count("reads", out.reads);
         rep.count("writes", out.writes);
         rep.count("second_saves", out.second_saves);
+        rep.count("updates_of_missing_numbers_refused", out.refused_updates);
         rep.count(if i % 2 == 1 { "fault_batch_runs" } else { "fault_free_batch_runs" }, 1);
         rep.count("values_not_roundtrip_safe_as_dictionary_entry", std::mem::take(&mut self.excluded_values));
         if let Some((sig, detail)) = out.violation {
